@@ -857,6 +857,14 @@ func (f *Fam) Exec(op string) (string, []common.Failure) {
 	}
 	if strings.HasPrefix(obs, "panic:other") {
 		f.poisoned = true
+		// a read, write or delete of a key that is not nil - the empty key included, which is the key of the record
+		// stored exactly at a prefix - is an ordinary operation: the wrapped store answers it, so must every wrapper
+		switch w[0] {
+		case "get", "has", "set", "del":
+			if len(w) > 1 && w[1] != "nil" && !(w[0] == "set" && len(w) > 2 && w[2] == "nil") {
+				fail("transparent", "kv:wrapper-panics-on-ordinary-operation", fmt.Sprintf("%s through %d layers: %s", op, len(f.layers), obs))
+			}
+		}
 	}
 	f.extra["depth:"+strconv.Itoa(len(f.layers))]++
 	return obs, fails
